@@ -23,7 +23,7 @@ import time
 from vf import core
 
 PY = sys.executable
-TIMEOUT = {"quick": 900, "thorough": 5400}
+TIMEOUT = {"quick": 2400, "thorough": 10800}
 
 
 def shard_env(seed, k):
